@@ -1159,6 +1159,11 @@ def run(model: Model, rep, tier: str) -> None:
     _dg_report(model, rep, "C12-R1", lambda n: n == "_uniform",
                "refined() returns a corrupt mesh without any error (cells "
                "pointing beyond the point array)")
+    from ..tags import report_oriented_remaps
+    if report_oriented_remaps(model, rep, "C12-R1",
+                              lambda f: f.name == "_uniform") < 2:
+        raise AnalysisError("fewer than two _uniform carry named "
+                            "boundaries over")
     rep.require_min("C12-R1", 10)
     rep.require_min("C12-R2", 5)
     rep.require_min("C12-R3", 12)
